@@ -10,6 +10,10 @@ def make_callbacks(mod, log):
     def is_obj(v, cls=None):
         return hasattr(v, '_fields') and hasattr(v, '_metadata') and (cls is None or type(v).__name__ == cls)
 
+    def tagged(o):
+        o._metadata.made_by_callback = True
+        return o
+
     def mk(tag, fn):
         def cb(v):
             log.append([tag, objcheck.expand(v)])
@@ -18,11 +22,25 @@ def make_callbacks(mod, log):
     return {
         'id': mk('id', lambda v: v),
         'AtoZ': mk('AtoZ', lambda v: mod.Z() if is_obj(v, 'A') else v),
+        'Acopy': mk('Acopy', lambda v: tagged(mod.A(v.x)) if is_obj(v, 'A') else v),
         'Bswap': mk('Bswap', lambda v: mod.B(v.r, v.l) if is_obj(v, 'B') else v),
         'Achild': mk('Achild', lambda v: v.x if is_obj(v, 'A') else v),
         'Zleaf': mk('Zleaf', lambda v: None if is_obj(v, 'Z') else v),
         'Blist': mk('Blist', lambda v: [v.l, v.r] if is_obj(v, 'B') else v),
     }
+
+
+def via_fields_and_lists(root):
+    """The objects transform reaches: through fields and lists only."""
+    out, stack = [], [root]
+    while stack:
+        x = stack.pop()
+        if isinstance(x, list):
+            stack.extend(x)
+        elif hasattr(x, '_fields') and hasattr(x, '_metadata'):
+            out.append(x)
+            stack.extend(getattr(x, f) for f in type(x)._fields)
+    return out
 
 
 def stamp(root, mod):
@@ -65,6 +83,10 @@ def xform_worker(case):
                         meta_ok = (got == want)
                     else:
                         meta_ok = all(m is not None for m in got)
+                if cbs[0] == 'Acopy':
+                    # every parent is rebuilt from its transformed children: each A in the result is a callback's copy
+                    meta_ok = all(getattr(o._metadata, 'made_by_callback', None) for o in via_fields_and_lists(r)
+                                  if type(o).__name__ == 'A')
                 if cbs == ['AtoZ']:
                     got = [meta_of(o) for o in mod.visit(r)]
                     meta_ok = all(m is not None for m in got)
@@ -131,5 +153,5 @@ def run(chk):
                 elif not o[3]:
                     chk.violation('the input tree was modified by transform | %s' % where, {'tree': x['t'], 'cbs': y['cbs']})
                 elif o[4] is False:
-                    chk.violation('span metadata not carried over to the result nodes | %s' % where,
+                    chk.violation('result nodes are not the transformed ones / span metadata not carried over | %s' % where,
                                   {'tree': x['t'], 'cbs': y['cbs']})
